@@ -600,6 +600,100 @@ impl<K: KeyT, V: ValT> MapRunner<K, V> {
         None
     }
 
+    /// Direct oracle for the capacity contract (C08) and try_reserve (C12) on the real collection.
+    fn capacity_step(
+        &self,
+        tgt: &str,
+        name: &str,
+        a: &[&str],
+        ret: &str,
+        before: &(Dump, usize, usize, usize),
+        events: &[String],
+    ) -> Option<String> {
+        let m = self.get(tgt);
+        let (len, cap, asz) = (m.len(), m.capacity(), m.allocation_size());
+        let (bd, blen, bcap, basz) = before;
+        let n = |i: usize| -> u128 { a[i].parse::<u128>().unwrap() };
+        if cap < len {
+            return Some(format!("capacity {} < len {}", cap, len));
+        }
+        let allocs = events.iter().filter(|e| e.starts_with("al")).count();
+        let refused = tape::with(|t| std::mem::take(&mut t.refused));
+        match (name, a.len()) {
+            ("reserve", 1) if ret == "()" => {
+                if (cap as u128) < len as u128 + n(0) {
+                    return Some(format!("after reserve({}) capacity {} < len {} + n", n(0), cap, len));
+                }
+                if n(0) <= bd.growth_left as u128 && (allocs > 0 || m.verif_dump() != *bd) {
+                    return Some("reserve within existing capacity touched the table".into());
+                }
+            }
+            ("with_capacity", 1) if ret == "()" => {
+                if (cap as u128) < n(0) {
+                    return Some(format!("with_capacity({}) gave capacity {}", n(0), cap));
+                }
+                if n(0) == 0 && (allocs > 0 || asz != 0) {
+                    return Some("with_capacity(0) allocated".into());
+                }
+            }
+            ("insert", 4) if !ret.starts_with("panic") => {
+                if bd.growth_left > 0 && allocs > 0 {
+                    return Some(format!(
+                        "insert allocated although capacity()-len() was {}",
+                        bd.growth_left
+                    ));
+                }
+            }
+            ("shrink_to", 1) | ("shrink_to_fit", 0) if ret == "()" => {
+                let mm = if a.is_empty() { 0 } else { n(0) };
+                if asz > *basz {
+                    return Some(format!("shrink enlarged the allocation {} -> {}", basz, asz));
+                }
+                let want = std::cmp::max(*blen as u128, std::cmp::min(mm, *bcap as u128));
+                if (cap as u128) < want {
+                    return Some(format!("after shrink_to({}) capacity {} < {}", mm, cap, want));
+                }
+                if *blen == 0 && mm == 0 && asz != 0 {
+                    return Some("shrink_to(0) of an empty collection kept its allocation".into());
+                }
+                if len != *blen {
+                    return Some("shrink changed len".into());
+                }
+            }
+            ("clear", 0) if !ret.starts_with("panic") => {
+                if asz != *basz {
+                    return Some("clear changed the allocation".into());
+                }
+            }
+            ("drain", 2) if a[1] == "0" && !ret.starts_with("panic") => {
+                if asz != *basz || len != 0 {
+                    return Some("drain did not leave an empty collection with its allocation".into());
+                }
+            }
+            ("try_reserve", 1) => {
+                if ret == "ok" {
+                    if (cap as u128) < len as u128 + n(0) {
+                        return Some(format!("try_reserve({}) = Ok but capacity {} < len {} + n", n(0), cap, len));
+                    }
+                } else if ret.starts_with("err(") {
+                    if m.verif_dump() != *bd || !events.is_empty() {
+                        return Some("try_reserve returned an error but changed the collection".into());
+                    }
+                    if let Some(rest) = ret.strip_prefix("err(AllocError ") {
+                        let want = refused.last().map(|(s, al)| format!("{} {})", s, al));
+                        if want.as_deref() != Some(rest) {
+                            return Some(format!("AllocError carries {} but the refused layout was {:?}", rest, refused.last()));
+                        }
+                    }
+                } else if ret.starts_with("panic") && !ret.starts_with("panic:hash") {
+                    return Some(format!("try_reserve panicked: {}", ret));
+                }
+            }
+            _ => {}
+        }
+        None
+    }
+
     fn run(&mut self, tgt: &str, name: &str, a: &[&str]) -> String {
         let n = |i: usize| -> u64 { a[i].parse().unwrap() };
         let rec = self.preds.clone();
@@ -751,6 +845,11 @@ impl<K: KeyT, V: ValT> Runner for MapRunner<K, V> {
         (size, std::mem::align_of::<(K, V)>(), K::DROP, K::IDS)
     }
     fn op(&mut self, tgt: &str, name: &str, args: &[&str]) -> String {
+        let before = {
+            let m = self.get(tgt);
+            (m.verif_dump(), m.len(), m.capacity(), m.allocation_size())
+        };
+        tape::with(|t| t.refused.clear());
         loud();
         tape::with(|t| t.events.clear());
         let ret = match catch_unwind(AssertUnwindSafe(|| self.run(tgt, name, args))) {
@@ -765,6 +864,9 @@ impl<K: KeyT, V: ValT> Runner for MapRunner<K, V> {
         if let Some(why) = self.ledger_step(name, args, &evs, panicked) {
             ret.push_str(&format!(" ORACLE-LEDGER({})", why.replace(' ', "_")));
             self.leak_ok = true;
+        }
+        if let Some(why) = self.capacity_step(tgt, name, args, &ret.clone(), &before, &evs) {
+            ret.push_str(&format!(" ORACLE-CAP({})", why.replace(' ', "_")));
         }
         // direct oracles on the implementation, independent of the model
         if let Some(why) = inv_oracle(&self.get(tgt).verif_dump()) {
